@@ -10,6 +10,8 @@
 (*   "sim" : everything, long formulas, sampled with -simulate              *)
 (*   "nest", "code" : two or three operands, no operator but negation, the  *)
 (*           functions of references: all nests up to MaxLen tokens         *)
+(*   "arg" : a cell and a number, SUM, IF and OFFSET: all nests up to MaxLen  *)
+(*           tokens (a reference made by a call where a value is wanted)    *)
 (*   "ref" : few operands, every function: long formulas with references    *)
 (*           and values nested in each other, sampled with -simulate        *)
 EXTENDS Formula
@@ -105,9 +107,6 @@ MCEnvs == << [A1 |-> IntV(-1),  B1 |-> Text(<<51>>),        \* -1, "3"
 AllBinary == {"^", "*", "/", "+", "-", "&", "=", "<>", "<", "<=", ">", ">="}
 AllOperands == DOMAIN MCLit \cup MCRefs
 AllCalls == CallToks
-\* the sampled long formulas of the quick tier: values only
-SimOperands == AllOperands \ {"Q1", "Q2", "Q3", "Q4", "Q5"}
-SimCalls == {"SUM(", "IF("}
 
 \* the second pool of literals and references
 ExtOperands == {"N10", "N11", "N12", "N13", "T17", "T18", "T19", "Q1", "Q2", "Q3", "Q4", "Q5"}
@@ -125,6 +124,11 @@ NestCalls == {"ROW(", "OFFSET("}
 \* a text that looks like generated code, counted where a reference is built
 CodeOperands == {"A1", "1", "T17"}
 CodeCalls == {"ROW(", "OFFSET(", "LEN("}
+
+\* references handed on as values: a call that denotes a reference as an
+\* argument of the calls that take values
+ArgOperands == {"A1", "0"}
+ArgCalls == {"SUM(", "IF(", "OFFSET("}
 
 \* references and values nested in each other: cells of two sheets, the small
 \* numbers that keep OFFSET near them, texts that differ only by what a
@@ -174,6 +178,11 @@ ASSUME Examples ==
    /\ V(<<"ROW(", "OFFSET(", "Q1", ",", "SUM(", "Q1", ",", "1", ")", ",", "0", ")", ")">>) = IntV(43)
    /\ V(<<"ROW(", "OFFSET(", "A1", ",", "u-", "1", ",", "0", ")", ")">>) = Err("#REF!")
    /\ V(<<"OFFSET(", "A1", ",", "#N/A", ",", "0", ")">>) = Err("#N/A")
+   /\ V(<<"SUM(", "OFFSET(", "A1", ",", "0", ",", "0", ")", ",", "1", ")">>) = IntV(0)   \* A1 + 1
+   /\ V(<<"T17", "+", "0">>) = VALUE
+   /\ V(<<"T17", "+", "OFFSET(", "A1", ",", "0", ",", "N12", ")">>) = U("any")   \* OFFSET by 2.5: open
+   /\ Value(<<"OFFSET(", "A1", ",", "0", ",", "0", ")">>, MCEnvs[3]) = U("any")   \* a blank cell, open
+   /\ Value(<<"u-", "OFFSET(", "A1", ",", "0", ",", "0", ")">>, MCEnvs[3]) = IntV(0)
    /\ Tree(<<"u-", "2", "%", "^", "3">>) =
         <<"bin", "^", <<"un", "%", <<"un", "u-", <<"lit", "2">>>>>>, <<"lit", "3">>>>
    /\ Unparse(<<"bin", "^", <<"bin", "^", <<"lit", "2">>, <<"lit", "3">>>>, <<"lit", "2">>>>)
